@@ -162,8 +162,8 @@ func checkC02(c *Ctx) {
 	// R02.5: the default backends keep keys apart (a value stored for one key is never found under another)
 	c.borrow("C09", func() {
 		for _, b := range backends {
+			c.c09WriteCopies(b) // also the sync.Map backend: its stored K is what Dump/Walk/eviction (and so a restored cache) go by
 			if b.Sharded {
-				c.c09WriteCopies(b)
 				c.c09Confirm(b)
 			}
 		}
@@ -316,6 +316,14 @@ func (c *Ctx) c02Sibling(fo *FO) {
 					if len(ev.Args) < 2 || !contentOf(all, ev.Args[1], fo.Key) {
 						d, t := c.pathDetail(fo, p, fmt.Sprintf("%s is not keyed by this call's key: %v", ev.Role, ev.Args))
 						r.Bad("R02.3", cons, "foreign-key-"+ev.Role, c.Pos(ev.Pos), d, t)
+					}
+					// what Get stores in the value cache is what later Gets (and concurrent ones, during a background update) are
+					// served as "found in the backend": it has the same provenance obligation as a returned value
+					if ev.Role == "BackendWrite" && len(ev.Args) >= 3 {
+						if pv := fo.valueProv(p, all, cl, ev.Args[2]); !pv.ok {
+							d, t := c.pathDetail(fo, p, fmt.Sprintf("Get stores a %s value in the backend: %s", pv.tag, pv.why))
+							r.Bad("R02.1", cons, "stored-fabricated-"+pv.tag, c.Pos(ev.Pos), d, t)
+						}
 					}
 				}
 			}
